@@ -427,6 +427,9 @@ func (ex *Exec) intrinsic(f *ssa.Function) intrinsicFn {
 			s.heapSet("|Timer:fn|", Store(fa, r, f))
 			ex.usedAssume["A-TIMER: time.AfterFunc(d, f) runs f once, d after the call, unless Stop succeeded; elapsed time is not modelled"] = true
 			ex.callbackEnabled(s, instr, args[1])
+			if _, con, _ := ex.closureEnv(s, args[1], ex.key+"@callback"); con != nil {
+				ex.asyncDeclared(s, instr, con, ex.siteName(instr, "AfterFunc"))
+			}
 			return callOut{v: PtrV{Base: r, Root: f0ResultElem(instr)}}
 		}
 	case "(*time.Timer).Stop":
@@ -470,6 +473,23 @@ func (ex *Exec) intrinsic(f *ssa.Function) intrinsicFn {
 			ex.assumeRefOK(s, c)
 			ex.usedAssume["A-TIMER: time.After(d) yields a channel that becomes ready at an unspecified time; elapsed time is not modelled"] = true
 			return callOut{v: Scalar{c}}
+		}
+	case "time.NewTicker":
+		return func(ex *Exec, s *State, instr ssa.Instruction, args []Val) callOut {
+			// A-TIMER: a ticker object whose channel C delivers ticks at
+			// unspecified times; Stop and Reset are not modelled (a tick may
+			// be delivered at any blocking select, which over-approximates
+			// every stop/reset history)
+			r := ex.newRef(s)
+			ex.usedAssume["A-TIMER: a time.Ticker may deliver a tick at any blocking select, whether stopped or not; elapsed time is not modelled"] = true
+			return callOut{v: PtrV{Base: r, Root: f0ResultElem(instr)}}
+		}
+	case "(*time.Ticker).Stop", "(*time.Ticker).Reset":
+		return func(ex *Exec, s *State, instr ssa.Instruction, args []Val) callOut {
+			if p, ok := args[0].(PtrV); ok {
+				ex.nilCheck(s, instr, p.Base)
+			}
+			return callOut{}
 		}
 	case "strings.Contains":
 		return func(ex *Exec, s *State, instr ssa.Instruction, args []Val) callOut {
